@@ -213,6 +213,12 @@ def run_case(case):  # noqa: C901
                     continue
                 sig = dict(v["sig"])
                 sig["tags"] = sorted({a[1][0] if isinstance(a[1], list) else a[1] for a in assignment})
+                if (sig.get("where") == "loopy/target/c/codegen/expression.py:map_comparison" and sig.get("error") == "TypeError"
+                        and any(s_[0] == "cmp" and any(isinstance(x, list) and x[:1] == ["py"] and isinstance(x[1], bool) for x in s_[2:])
+                                for _n, t_ in outs for s_ in T.all_subterms(t_))):
+                    # C01's known finding (comparison with a Python bool scalar): the untagged program only escapes it because
+                    # its other operand is an inlined constant
+                    sig = {"kind": "exception", "cause": "comparison-with-python-bool-scalar", "error": "TypeError"}
                 viol.append({"sig": sig, "msg": f"{where}: untagged program is fine but tagged variant: {v['msg'][:1200]}"})
             continue
         for n in base_arrays:
@@ -233,9 +239,18 @@ def run_case(case):  # noqa: C901
                     bad = values.compare(got[n], b[n], scale=float(np.nanmax(np.abs(b[n]))) if b[n].size else 1.0,
                                          nred=8)
                 if bad:
-                    viol.append({"sig": {"kind": "tag-changes-value",
-                                         "tags": sorted({a[1][0] if isinstance(a[1], list) else a[1] for a in assignment})},
-                                 "msg": f"{where}: output {n} valuation {val}: {bad}"})
+                    sig = {"kind": "tag-changes-value",
+                           "tags": sorted({a[1][0] if isinstance(a[1], list) else a[1] for a in assignment})}
+                    mixed = None
+                    for _n, t_ in outs:
+                        mixed = mixed or progcheck.c_promotion_narrower(t_)
+                    if mixed is not None and b[n].dtype == np.float64 and not values.compare(
+                            got[n], b[n], scale=float(np.nanmax(np.abs(b[n]))) if b[n].size else 1.0, nred=8,
+                            min_eps=float(np.finfo(np.float32).eps)):
+                        # the two variants agree to float32 precision and the program mixes >=32-bit integers with float32:
+                        # one of them evaluates in C float what NumPy evaluates in float64
+                        sig = {"kind": "tag-changes-value", "cause": "int-and-float32-operands-evaluated-in-c-float"}
+                    viol.append({"sig": sig, "msg": f"{where}: output {n} valuation {val}: {bad}"})
         if len(viol) > 12:
             break
     if nexec >= cap:
